@@ -355,6 +355,26 @@ def r9_3(ctx: Ctx) -> RuleResult:
     return rr
 
 
+def _cache_cell_stores(ctx: Ctx) -> Set[str]:
+    """The cache cell of the per-resolution wrapper, whatever it is called: the fields that the wrapper's constructor
+    sets to something that is not one of its parameters (the "nothing cached yet" sentinel)."""
+    def make() -> Set[str]:
+        cls = ctx.repo.get_class("CachingFilterExpression")
+        init = cls.methods.get("__init__") if cls is not None else None
+        if init is None:
+            return {"store ._cached"}
+        params = {a.arg for a in init.node.args.args}
+        out = set()
+        for n in ast.walk(init.node):
+            tgt = n.targets[0] if isinstance(n, ast.Assign) and len(n.targets) == 1 else (n.target if isinstance(n, ast.AnnAssign) and n.value is not None else None)
+            if isinstance(tgt, ast.Attribute) and path_of(tgt.value) == "self":
+                if not any(isinstance(x, ast.Name) and x.id in params - {"self"} for x in ast.walk(n.value)):  # type: ignore[union-attr]
+                    out.add(f"store .{tgt.attr}")
+        return out or {"store ._cached"}
+
+    return ctx.cached("cache_cell_stores", make)
+
+
 def r9_4(ctx: Ctx) -> RuleResult:
     rr = RuleResult("R9.4", "compiled objects are assigned only in their constructors", floor=20)
     classes: List[ClassInfo] = []
@@ -376,7 +396,7 @@ def r9_4(ctx: Ctx) -> RuleResult:
                         owner_cls = hit[0]
             if owner_cls is None:
                 continue
-            if owner_cls == "CachingFilterExpression" and how == "store ._cached":
+            if owner_cls == "CachingFilterExpression" and how in _cache_cell_stores(ctx):
                 rr.ok(fn.loc(node), "cache cell of a per-resolution wrapper")
                 continue
             if path_of(recv) == "self" and fn.name in ("__init__", "set_children"):
